@@ -100,6 +100,56 @@ def _shard_entry(args: tuple) -> dict:
         return {"harness_error": traceback.format_exc()}
 
 
+def _shard_proc(conn, job) -> None:
+    try:
+        conn.send(_shard_entry(job))
+    finally:
+        conn.close()
+
+
+def run_jobs(jobs: list, nproc: int) -> list:
+    """Run shard jobs in non-daemonic forked processes (shards start their own workers)."""
+    ctx = mp.get_context("fork")
+    pending = list(enumerate(jobs))
+    running: dict[int, tuple] = {}
+    results: list = [None] * len(jobs)
+    deadline = time.time() + WATCHDOG_S
+    try:
+        while pending or running:
+            while pending and len(running) < nproc:
+                idx, job = pending.pop(0)
+                parent, child = ctx.Pipe(duplex=False)
+                p = ctx.Process(target=_shard_proc, args=(child, job), daemon=False)
+                p.start()
+                child.close()
+                running[idx] = (p, parent)
+            progressed = False
+            for idx, (p, conn) in list(running.items()):
+                if conn.poll(0):
+                    try:
+                        results[idx] = conn.recv()
+                    except EOFError:
+                        results[idx] = {"harness_error": f"shard {idx} died without a result"}
+                    p.join()
+                    del running[idx]
+                    progressed = True
+                elif not p.is_alive():
+                    if conn.poll(0.2):
+                        continue
+                    results[idx] = {"harness_error": f"shard {idx} exited with code {p.exitcode}"}
+                    del running[idx]
+                    progressed = True
+            if time.time() > deadline:
+                raise HarnessError("watchdog: shards did not finish in time")
+            if not progressed:
+                time.sleep(0.02)
+    finally:
+        for p, _ in running.values():
+            if p.is_alive():
+                p.kill()
+    return results
+
+
 def _child_call(conn, prop: str, fn: str, arg: object) -> None:
     try:
         mod = importlib.import_module(f"pestverif.props.{prop.lower()}")
@@ -205,19 +255,7 @@ def check(prop: str, tier: str) -> int:
     # 3. shards
     specs = mod.shards(tier)
     jobs = [(prop, tier, seed, i, len(specs), spec) for i, spec in enumerate(specs)]
-    ctx = mp.get_context("fork")
-    nproc = min(len(jobs), int(os.environ.get("PESTVERIF_PROCS", "16")))
-    results = []
-    with ctx.Pool(processes=nproc, maxtasksperchild=1) as pool:
-        async_res = [pool.apply_async(_shard_entry, (j,)) for j in jobs]
-        deadline = time.time() + WATCHDOG_S
-        for r in async_res:
-            remaining = deadline - time.time()
-            try:
-                results.append(r.get(timeout=max(1.0, remaining)))
-            except mp.TimeoutError as err:
-                pool.terminate()
-                raise HarnessError("watchdog: shard did not finish") from err
+    results = run_jobs(jobs, min(len(jobs), int(os.environ.get("PESTVERIF_PROCS", "16"))))
 
     evals = 0
     nt: set[int] = set()
